@@ -300,7 +300,7 @@ func spec_isNewer(g Generator) bool { _, ok := g.(GeneratorNewer); return ok }
 //@   note every package gets its own generator value: a freshly allocated one (reflect.New of the prototype's type), never the registered prototype itself; for a generator with a custom New this is the ASSUMED contract of that constructor (fresh-result)
 
 //@ func newGenfile
-//@   props C05 C07
+//@   props C01 C05 C07
 //@   pure
 //@   ensures fresh(result) && result.name == name
 //@   ensures fresh(result.body) && spec_written(result.body) == ""
